@@ -76,8 +76,9 @@ CHECKS.update({
         text="Proved for all inputs from the real AST: _order against the character order of the property (ASCII), _version_cmp_string against "
              "the recursive specification lexpad (loop invariant, comprehensions as recursive functions, termination), lexpad's range / "
              "reflexivity / antisymmetry / transitivity by guarded induction, _compare's combination of epoch, upstream and revision and "
-             "the six rich comparisons (relative to an assumed contract for _version_cmp_part). Agreement of the whole order with dpkg, "
-             "_version_cmp_part itself and hash consistency are decided by a bounded stand-in (all pairs of generated versions vs a "
+             "the six rich comparisons, and the loop of _version_cmp_part against a recursive specification over the token lists (padding "
+             "with '0', numeric vs string comparison, first difference decides, termination, no ValueError; re.findall as an "
+             "uninterpreted tokenizer). Agreement of the whole order with dpkg and hash consistency are decided by a bounded stand-in (all pairs of generated versions vs a "
              "Policy-level spec validated against dpkg's algorithm and binary).",
         technique="contract-based deductive verification (loop invariants, recursive spec functions, induction lemmas; SMT) + bounded stand-in"),
  "C03-old": bounded_only("all ordered pairs of ~700-3000 generated valid versions are compared with a Policy-level specification, itself validated "
